@@ -33,6 +33,30 @@ CHECKS = {
              "(completeness of the hook is cross-checked by comparing the model's file image with the real file).",
         technique="TLA+ model checking (TLC) + trace validation + crash-point enumeration against the real recovery",
         engine="vstorage"),
+    "C02": dict(
+        level="fault_enumeration",
+        text="Generated query histories (single queries and transaction_mut closures, commits and aborts) run on the real Db and "
+             "DbFile with hook H1; before every mutating file-system call of every step, and of every close (drop-time "
+             "defragmentation), both files are snapshotted, plus two torn prefixes of the pending write. Every distinct image is "
+             "reopened by EVERY file-backed variant (Db, DbFile, DbAny file, DbAny mapped) and fully dumped through the public "
+             "API (elements, endpoints, properties, aliases, indexes, adjacency). TLC (DbTrace.tla, CrashMode = readable) "
+             "requires each CrashProbe event to be ok (opened, no panic, every read succeeded) and its dump to satisfy DbInv.",
+        design="3.1, 3.3, 4 C02",
+        note="crash = process death (calls before the crash point are on disk in program order, none after); histories and, for "
+             "steps with more than 60 distinct images, images are sampled (seeded); hook H1 completeness is cross-checked by C01",
+        technique="crash-point enumeration on the real database, each recovered image decided by TLA+ trace validation (TLC)",
+        engine="vdb"),
+    "C03": dict(
+        level="fault_enumeration",
+        text="Same crash-point engine as C02. The trace carries, after each step's own event and the Observe that validates the "
+             "model state, one CrashProbe event per DISTINCT recovered dump of that step; DbTrace.tla keeps the model state "
+             "before the step (prev) and after it (db) and requires DumpState(dump) = prev or = db (CrashMode = atomic). "
+             "Because every step is also validated against DbModel, 'everything completed earlier is preserved' follows from "
+             "prev being the validated state.",
+        design="3.3, 4 C03",
+        note="as C02; at most 120 images per step; cross-variant reopen on every 7th image",
+        technique="crash-point enumeration on the real database, atomicity decided by TLA+ trace validation (TLC) against DbModel",
+        engine="vdb"),
     "C04": dict(
         level="model_checking",
         text="StorageAlloc.tla, a cell-level model of storage.rs (record table, free list, best-fit placement, split / "
@@ -105,13 +129,29 @@ CHECKS = {
              "drivers (operations take microseconds)",
         technique="TLA+ model checking (TLC) of the scaled mechanism + slot-exact trace validation at the real constant",
         engine="vstorage"),
+    "C32": dict(
+        level="fault_enumeration",
+        text="A public StorageData wrapper around the real FileStorage (no hook) makes the k-th write/resize call of a query "
+             "fail. For every step of generated histories and every sampled k the step runs on a copy of the database with call "
+             "k failing, followed by later mutations, close, and reopen with DbFile and Db. Each probe is one run of the trace; "
+             "DbTrace.tla requires: the faulted step reports an error and leaves the model state unchanged (Unchanged13), every "
+             "later step behaves as DbModel says (usable), and the dumps after reopen equal the model state (nothing lost, file "
+             "readable). On this tree the property is violated by defect D15 (no physical rollback); the seven observed "
+             "symptoms are listed in known_findings.json, any other symptom (error swallowed, file unreadable after reopen, "
+             "panic on close/reopen) is reported as a violation.",
+        design="3.1, 4 C32, 6 D15",
+        note="a fault is one StorageData call failing before anything reaches the file, one fault per probe; at most 16 (quick) / 40 "
+             "(thorough) fault points per step; known-finding signatures are symptom classes, so a new defect with an already "
+             "listed symptom is not distinguished from D15",
+        technique="fault injection at every storage call of the real database, each run decided by TLA+ trace validation (TLC)",
+        engine="vdb"),
 }
 
 ENGINES = [
     {"name": "vstorage", "path": "harness/vstorage", "serves_properties": ["C01", "C04", "C19"],
      "kind_free_text": "Rust drivers over the real storage layer and hash map (hooks H1, H2); TLC for WalStorage/WalTrace, StorageAlloc/StorageAllocTrace, HashMap/HashMapTrace"},
     {"name": "vdb", "path": "harness/vdb",
-     "serves_properties": ["C05", "C06", "C08", "C09", "C10", "C11", "C12", "C13", "C14", "C15", "C16", "C17", "C18"],
+     "serves_properties": ["C02", "C03", "C32", "C05", "C06", "C08", "C09", "C10", "C11", "C12", "C13", "C14", "C15", "C16", "C17", "C18"],
      "kind_free_text": "Rust driver recording query histories from the real database (all storage variants); "
                        "TLC for DbModel/DbSearch/DbTrace/MCDb"},
 ]
